@@ -106,16 +106,20 @@ func TestStatusTableSweep(t *testing.T) {
 }
 
 // ---------------------------------------------------------------------------
-// Curated scripts: the listed finding's minimal reproducer is re-run on every
-// execution of the raw-requests check (so KNOWN-FINDING is printed as long as
-// the defect exists); VT_WRITE_REPLAYS=<dir> writes the curated replay files.
+// Curated scripts: the minimal reproducers of the defect this check found and
+// that has since been repaired in /repo (errorHandler answered 500 for a
+// rejection in front of the OTLP handler when the Content-Type was not
+// protobuf/JSON) are re-run on every execution of the raw-requests check as
+// regression probes: a recurrence is a VIOLATION
+// (rejected/status/500-from-error-handler-without-supported-content-type).
+// VT_WRITE_REPLAYS=<dir> writes the curated replay files.
 // ---------------------------------------------------------------------------
 
 func knownProbes() map[string]RawScript {
 	valid, _ := encodeReq(fuzzSeedPayloads()[sig.Logs], false)
 	return map[string]RawScript{
-		"known-unauthenticated-without-content-type": {Wire: "http", Signal: sig.Logs, Auth: true, Cred: "none", Method: "POST", ContentType: "", Plain: valid, Origin: "valid"},
-		"known-unknown-encoding-with-text-plain":     {Wire: "http", Signal: sig.Logs, Cred: "none", Method: "POST", ContentType: "text/plain", Enc: "br", Plain: valid, Origin: "valid"},
+		"unauthenticated-without-content-type": {Wire: "http", Signal: sig.Logs, Auth: true, Cred: "none", Method: "POST", ContentType: "", Plain: valid, Origin: "valid"},
+		"unknown-encoding-with-text-plain":     {Wire: "http", Signal: sig.Logs, Cred: "none", Method: "POST", ContentType: "text/plain", Enc: "br", Plain: valid, Origin: "valid"},
 	}
 }
 
